@@ -16,7 +16,7 @@
 (* Results are [sig, v, S]; sig "ok" | "err" | "ood" (outside the oracle's *)
 (* domain: 64-bit overflow, non-dyadic floats, unordered printing ...).    *)
 (***************************************************************************)
-EXTENDS Integers, Sequences, FiniteSets, TLC
+EXTENDS Integers, Sequences, FiniteSets, TLC, SequencesExt
 
 MaxMag == 1048576          \* 2^20: beyond this the case is declared out of domain
 MaxDen == 1024
@@ -124,6 +124,23 @@ RECURSIVE JoinSeqs(_, _)
 JoinSeqs(ss, sep) == IF ss = <<>> THEN <<>>
                      ELSE IF Len(ss) = 1 THEN ss[1] ELSE ss[1] \o sep \o JoinSeqs(Tail(ss), sep)
 
+\* Dicts are walked in the byte order of their keys (keys/values/items, printing, serialisation).  The oracle knows that order
+\* for keys written with ASCII letters, digits and '_' ("simple" keys); other keys leave the walk outside its domain.
+AsciiSeq == <<"0", "1", "2", "3", "4", "5", "6", "7", "8", "9",
+              "A", "B", "C", "D", "E", "F", "G", "H", "I", "J", "K", "L", "M", "N", "O", "P", "Q", "R", "S", "T", "U", "V", "W", "X", "Y", "Z", "_",
+              "a", "b", "c", "d", "e", "f", "g", "h", "i", "j", "k", "l", "m", "n", "o", "p", "q", "r", "s", "t", "u", "v", "w", "x", "y", "z">>
+AsciiSet == {AsciiSeq[i] : i \in 1..Len(AsciiSeq)}
+Rank(c) == CHOOSE i \in 1..Len(AsciiSeq) : AsciiSeq[i] = c
+SimpleKey(k) == \A i \in 1..Len(k) : k[i] \in AsciiSet
+RECURSIVE KeyLess(_, _)
+KeyLess(a, b) == IF a = <<>> THEN b # <<>>
+                 ELSE IF b = <<>> THEN FALSE
+                 ELSE IF Rank(a[1]) # Rank(b[1]) THEN Rank(a[1]) < Rank(b[1])
+                 ELSE KeyLess(Tail(a), Tail(b))
+\* the positions of a dict cell's entries in walking order
+KeyOrder(cell) == SortSeq([i \in 1..Len(cell.ks) |-> i], LAMBDA a, b : KeyLess(cell.ks[a], cell.ks[b]))
+Walkable(cell) == \A i \in 1..Len(cell.ks) : SimpleKey(cell.ks[i])
+
 \* ToStr / ToRepr; depth-bounded by the generators (no cyclic values).  Dicts with two or more keys have no
 \* defined order: "unordered" marks the result as out of the oracle's domain.
 MaxDepth == 6       \* deeper values are outside the oracle's domain unless they are small graphs (OutOfWalk)
@@ -135,12 +152,19 @@ OutOfWalk(v, S) == TooDeep(v, S) /\ TooBig(v, S)     \* shallow values of any si
 \* `seen` is threaded left to right; every rendering (every ToStr call, every hole of a template) starts with none seen.
 RECURSIVE StrOfS(_, _, _, _, _)
 RECURSIVE StrList(_, _, _, _, _)
+RECURSIVE StrPairs(_, _, _, _, _, _)
 StrOf(v, S, repr) == LET r == StrOfS(v, S, repr, 0, {}) IN [ok |-> r.ok, c |-> r.c]
 StrList(xs, S, dep, seen, k) ==
   IF k > Len(xs) THEN [ok |-> TRUE, parts |-> <<>>, seen |-> seen]
   ELSE LET h == StrOfS(xs[k], S, TRUE, dep, seen)
            t == StrList(xs, S, dep, h.seen, k + 1) IN
        [ok |-> h.ok /\ t.ok, parts |-> <<h.c>> \o t.parts, seen |-> t.seen]
+\* the entries of a dict cell in walking order: 'key': repr(value)
+StrPairs(cell, idx, S, dep, seen, k) ==
+  IF k > Len(idx) THEN [ok |-> TRUE, parts |-> <<>>, seen |-> seen]
+  ELSE LET h == StrOfS(cell.vs[idx[k]], S, TRUE, dep, seen)
+           t == StrPairs(cell, idx, S, dep, h.seen, k + 1) IN
+       [ok |-> h.ok /\ t.ok, parts |-> <<<<"SQ">> \o cell.ks[idx[k]] \o <<"SQ", ":", "SP">> \o h.c>> \o t.parts, seen |-> t.seen]
 StrOfS(v, S, repr, dep, seen) ==
   IF dep > MaxDepth THEN [ok |-> FALSE, c |-> <<>>, seen |-> seen] ELSE
   CASE v.t = "int"  -> [ok |-> TRUE, c |-> IntChars(v.v), seen |-> seen]
@@ -158,6 +182,9 @@ StrOfS(v, S, repr, dep, seen) ==
                             ELSE IF Len(cell.ks) = 1
                             THEN LET p == StrOfS(cell.vs[1], S, TRUE, dep + 1, seen \cup {v.a}) IN
                                  [ok |-> p.ok, c |-> <<"LB", "SQ">> \o cell.ks[1] \o <<"SQ", ":", "SP">> \o p.c \o <<"RB">>, seen |-> p.seen]
+                            ELSE IF Walkable(cell) /\ Len(cell.ks) <= 8
+                            THEN LET r == StrPairs(cell, KeyOrder(cell), S, dep + 1, seen \cup {v.a}, 1) IN
+                                 [ok |-> r.ok, c |-> <<"LB">> \o JoinSeqs(r.parts, <<",", "SP">>) \o <<"RB">>, seen |-> r.seen]
                             ELSE [ok |-> FALSE, c |-> <<>>, seen |-> seen]
     [] OTHER -> [ok |-> FALSE, c |-> <<>>, seen |-> seen]
 
